@@ -68,6 +68,80 @@ def eval_method_rule(rep, facts, cls, reloc, rule):
                               line=m.lineno))
 
 
+WORD_SAMPLES = [0, 1, 0x7ff, 0x800, 0x801, 0xfff, 0x1000, 0x7ffff7ff, 0x7ffff800, 0x7fffffff, 0x80000000, 0x800007ff, 0x80000800, 0xfffff7ff, 0xfffff800,
+                0xffffffff, -1, -0x7ff, -0x800, -0x801, -0x1000, -0x7ffff800, -0x80000000]
+
+
+class _FoldWord(ast.NodeTransformer):
+    """c_uint32(x).value / c_int32(x).value of a constant x, so that astutil.fold can finish the job."""
+
+    def visit_Attribute(self, node):
+        self.generic_visit(node)
+        if node.attr == 'value' and isinstance(node.value, ast.Call) and dotted(node.value.func) in ('c_uint32', 'ctypes.c_uint32', 'c_int32', 'ctypes.c_int32') \
+                and len(node.value.args) == 1 and isinstance(node.value.args[0], ast.Constant) and isinstance(node.value.args[0].value, int):
+            v = node.value.args[0].value & 0xffffffff
+            if dotted(node.value.func).endswith('c_int32') and v & 0x80000000:
+                v -= 1 << 32
+            return ast.copy_location(ast.Constant(value=v), node)
+        return node
+
+
+def total_eval_rule(rep, facts, cls, rule):
+    """%hi / %lo are defined for every 32-bit value (the property quantifies over all 2^32 of them, in every spelling): an eval()
+    that raises for one of them refuses a valid operand.  Every `raise` in the method is examined under the tests that guard it,
+    with the inner value bound to boundary values of the 32-bit range (a witness is a disproof; guards that cannot be folded give
+    no verdict)."""
+    import copy
+    from ..astutil import fold, NotConstant
+    owner, m = facts.method(cls, 'eval')
+    if m is None:
+        raise AnalysisError('anchor vanished: {}.eval'.format(cls))
+    inner = None
+    for n in ast.walk(m):
+        if isinstance(n, ast.Assign) and len(n.targets) == 1 and isinstance(n.targets[0], ast.Name) and isinstance(n.value, ast.Call) \
+                and isinstance(n.value.func, ast.Attribute) and n.value.func.attr == 'eval':
+            inner = n.targets[0].id
+    raises = [n for n in ast.walk(m) if isinstance(n, ast.Raise)]
+    if not raises:
+        rep.ok(rule, '{}.eval never refuses a value'.format(cls), nontrivial=False)
+        return
+    for r in raises:
+        guards = []
+        cur = r
+        par = getattr(cur, '_parent', None)
+        while par is not None and par is not m:
+            if isinstance(par, ast.If):
+                guards.append((par.test, cur in par.body or any(cur is x or cur in ast.walk(x) for x in par.body)))
+            elif isinstance(par, (ast.Try, ast.ExceptHandler, ast.For, ast.While, ast.With)):
+                raise AnalysisError('{}.eval raises inside a {}: when it refuses a value is not understood'.format(cls, type(par).__name__))
+            cur, par = par, getattr(par, '_parent', None)
+        if inner is None or not guards:
+            raise AnalysisError('{}.eval contains a raise whose condition is not understood'.format(cls))
+        witness = None
+        for v in WORD_SAMPLES:
+            try:
+                fires = True
+                for test, in_body in guards:
+                    t2 = copy.deepcopy(test)
+
+                    class Sub(ast.NodeTransformer):
+                        def visit_Name(self, n):
+                            return ast.copy_location(ast.Constant(value=v), n) if n.id == inner else n
+                    t2 = _FoldWord().visit(Sub().visit(t2))
+                    val = bool(fold(t2))
+                    if val != in_body:
+                        fires = False
+                        break
+            except NotConstant:
+                raise AnalysisError('{}.eval: the condition under which it refuses a value ({}) cannot be evaluated on constants'.format(cls, unparse(guards[0][0])[:60]))
+            if fires:
+                witness = v
+                break
+        rep.check(witness is None, rule, '{}.eval accepts every boundary value of the 32-bit range'.format(cls),
+                  lambda r=r, witness=witness: Finding(rule, cls + '.eval', r, '{}.eval refuses the 32-bit value {:#x}: {} of every 32-bit value is defined and fits its field'.format(
+                      cls, witness & 0xffffffff, '%' + cls.lower()), line=r.lineno))
+
+
 def run(repo, tier):
     facts = Facts(repo.asm)
     rep = Report('C07', LEVEL,
@@ -197,6 +271,8 @@ def run(repo, tier):
     rep.count('parse_immediate paths', len(seen))
     # (f) pairing of the halves built by the pseudo-instruction pass
     IS.check_lo_pairing(rep, facts, 'R7.lo-width', 'R7.guard-fits', 'R7.hi-lo-pair')
+    for cls_ in ('Hi', 'Lo'):
+        total_eval_rule(rep, facts, cls_, 'R7.total')
     # the auipc + jalr pair rebuilds its target only if both halves are %hi / %lo of the *same* value: every site that evaluates
     # the jalr half does so relative to the auipc, and nothing is added to the result afterwards (%lo(v + c) != %lo(v) + c)
     IS.check_auipc(rep, facts, 'R7.auipc-adjust', 'R7.auipc-sibling')
